@@ -71,7 +71,10 @@ class State:
         for grounded_predicates in self.state_predicates.values():
             predicates_str += " "
             predicates_str += " ".join(
-                predicate.untyped_representation for predicate in grounded_predicates
+                sorted(
+                    predicate.untyped_representation
+                    for predicate in grounded_predicates
+                )
             )
 
         return predicates_str
@@ -85,7 +88,7 @@ class State:
         for grounded_predicates in self.state_predicates.values():
             typed_predicates_str += " "
             typed_predicates_str += " ".join(
-                str(predicate) for predicate in grounded_predicates
+                sorted(str(predicate) for predicate in grounded_predicates)
             )
 
         return (
